@@ -83,6 +83,8 @@ func parseLines(res *core.TLCResult) ([]Line, error) {
 		}
 		out = append(out, ln)
 	}
+	// TLC's workers print in no particular order: fix one
+	sort.SliceStable(out, func(i, j int) bool { return lineKey(&out[i]) < lineKey(&out[j]) })
 	return out, nil
 }
 
